@@ -91,6 +91,13 @@ theorem meas_stepW {wid : Nat} (hf : NoFaults s.cfg) (hwc : WellCfg s.cfg) (hL :
     rw [hpc, hpc'] at hmw; simp only [wOff] at hmw
     rw [hmr _ hpq, hmq _ _ hrq hwq, hmr0, ← hmq0, someCount_append_some, noneCount_append_some]
     have := hnone hh; omega
+  · -- retire with a join timeout: the wid is posted, `end()` still to run
+    rw [hpc, hpc'] at hmw; simp only [wOff] at hmw
+    rw [hmr _ hpq, hmq _ _ hrq hwq, hmr0, ← hmq0, someCount_append_some, noneCount_append_some]
+    have := hsame hh; omega
+  · -- `end()` of a retired worker
+    rw [hpc, hpc'] at hmw; simp only [wOff] at hmw
+    rw [hmr _ hpq, hmq _ _ hrq hwq, ← hmr0, ← hmq0]; have := hnone hh; omega
 
 
 /-! ### the feeder -/
